@@ -4,10 +4,13 @@ Workload: vlib/gen/htmlgrammar.py writes HTML bodies whose every text leaf is a 
 token (b/v visible before/after a removed construct, r inside script/style/noscript/iframe/object/
 embed/applet or a comment, u unjudged).  Each body is pushed through four carriers in sandboxed
 workers: read_html (.html file), read_mhtml (multipart/related built with the stdlib email package),
-read_epub (own minimal EPUB, body as a chapter) and msg_email_extractor._html_to_text (the helper the
-MSG extractor applies to an HTML body; it is called directly — no synthetic .msg container — and
-_looks_like_html() of the same body is recorded so the evidence says how many bodies would have taken
-that path in a real .msg).  The MHTML root part is text/html (quoted-printable / base64 / 8bit) or, in about 3 of 10 archives,
+read_epub (own minimal EPUB, body as a chapter) and read_msg_format_mail (own minimal Outlook .msg
+written with vlib/gen/cfb.py: subject, transport headers, the body in PidTagHtml, optionally a plain
+alternative in PidTagBody; what the library's own _looks_like_html() says about the body is recorded).
+An .msg body that does not "announce" itself (G.announces_html: no doctype / <html / <body / bare
+<p> <div> <br> <span> <table> <tr> <td>) is a known mechanism of its own
+(msg-html-fragment-without-common-tag): such a fragment goes into the clean MSG case wrapped in
+<div>..</div>, and unwrapped into a risky case whose control twin is the wrapped one.  The MHTML root part is text/html (quoted-printable / base64 / 8bit) or, in about 3 of 10 archives,
 application/xhtml+xml / application/xml sent 8bit: no part is labelled text/html then and the library
 finds the document by searching the raw archive bytes (a counting stand-in for
 mhtml_extractor._RE_RAW_HTML proves that path was taken; the body is then a complete <html>..</html>
@@ -121,10 +124,15 @@ def work(case: dict) -> dict:
     obs: dict = {"cid": case.get("cid")}
     try:
         if carrier == "msg":
-            obs["looks_like_html"] = bool(_X["msgx"]._looks_like_html(doc))
-            text = _X["msgx"]._html_to_text(doc)
-            full, units, cells, other = text, [text], [], []
-            obs["n_results"] = 1
+            if hasattr(_X["msgx"], "_looks_like_html"):
+                obs["looks_like_html"] = bool(_X["msgx"]._looks_like_html(doc))
+            res = list(_X["msgx"].read_msg_format_mail(io.BytesIO(G.render_msg(doc, params)), path="case.msg"))
+            obs["n_results"] = len(res)
+            full = "\n".join(r.get_full_text() for r in res)
+            units = [u.get_text() for r in res for u in r.iterate_units()] + [r.body_plain or "" for r in res]
+            cells = [str(c) for r in res for t in r.iterate_tables() for row in t.get_table() for c in row]
+            other = [str(r.subject or "") for r in res]
+            obs["body_html_kept"] = any(bool(r.body_html) for r in res)
         else:
             data = carrier_bytes(carrier, doc, params)
             fn = _X["read_" + carrier]
@@ -230,6 +238,9 @@ def epub_doc(doc: str, wrapper: str) -> str:
     return doc
 
 
+QUIET = "msg-html-fragment-without-common-tag"
+
+
 def carrier_params(rng, carrier: str) -> dict:
     if carrier == "html":
         return {"bom": rng.random() < 0.15}
@@ -237,6 +248,8 @@ def carrier_params(rng, carrier: str) -> dict:
         # root: media type of the root part; anything but text/html sends the library to its raw search of the archive bytes
         return {"cte": rng.choice(("quoted-printable", "quoted-printable", "base64", "8bit")), "related": rng.random() < 0.7,
                 "root": rng.choice(("text/html",) * 7 + ("application/xhtml+xml", "application/xhtml+xml", "application/xml"))}
+    if carrier == "msg":
+        return {"plain_too": rng.random() < 0.3, "tree": rng.choice(("balanced", "balanced", "chain"))}
     if carrier == "epub":
         return {"media": rng.choice(("xhtml", "xhtml", "html")), "dir": rng.choice(("OEBPS/", "OEBPS/", "")),
                 "deflate": rng.random() < 0.8, "second": rng.random() < 0.3}
@@ -271,13 +284,22 @@ def build_cases(run, bodies, ref_share: float = 1.0) -> tuple[list[dict], dict]:
                     else:
                         tokens[extra] = "v"
                         params["second"] = _XH[0] + f"<p>{extra}</p>" + _XH[1]
-            group = len(meta)
-            for role, dd in (("main", d), ("twin", t), ("ref", rf)):
-                if dd is None:
-                    continue
-                cid = len(meta)
-                meta[cid] = {"body": bi, "carrier": carrier, "role": role, "group": group, "tokens": tokens, "params": params, "doc": dd}
-                cases.append({"cid": cid, "carrier": carrier, "doc": dd, "params": params})
+            groups = [(None, d, t, rf)]
+            if carrier == "msg" and not all(G.announces_html(x) for x in (d, t, rf) if x):
+                assert body.wrapper == "fragment"
+                wrap = lambda x: f"<div>{x}</div>" if x else None
+                groups = [(None, wrap(d), wrap(t), wrap(rf))]
+                if body.risky is None:
+                    groups.append((QUIET, d, wrap(d), None))
+            for grisky, d, t, rf in groups:
+                group = len(meta)
+                for role, dd in (("main", d), ("twin", t), ("ref", rf)):
+                    if dd is None:
+                        continue
+                    cid = len(meta)
+                    meta[cid] = {"body": bi, "carrier": carrier, "role": role, "group": group, "tokens": tokens, "params": params, "doc": dd,
+                                 "risky": grisky or body.risky}
+                    cases.append({"cid": cid, "carrier": carrier, "doc": dd, "params": params})
     return cases, meta
 
 
@@ -298,6 +320,7 @@ def evaluate(run, bodies, cases, meta, results) -> None:
     for g, roles in sorted(groups.items()):
         m = meta[roles["main"]]
         body, carrier = bodies[m["body"]], m["carrier"]
+        grisky = m["risky"]
         verdicts = {}
         ref_obs = None
         for role in ("ref", "main", "twin"):
@@ -330,9 +353,9 @@ def evaluate(run, bodies, cases, meta, results) -> None:
                     run.count(f"context_positions_compared_{carrier}")
             verdicts[role] = syms
             outcome = "+".join(s for s, _ in syms) or "ok"
-            feats = sorted(body.features | ({"risky:" + body.risky} if body.risky and role == "main" else set()))
+            feats = sorted(body.features | ({"risky:" + grisky} if grisky and role == "main" else set()))
             run.case(f"{carrier}|{role}|{','.join(feats)}|{outcome}",
-                     sample={"carrier": carrier, "role": role, "risky": body.risky, "doc": meta[cid]["doc"][:300], "outcome": outcome})
+                     sample={"carrier": carrier, "role": role, "risky": grisky, "doc": meta[cid]["doc"][:300], "outcome": outcome})
             run.count(f"cases_{carrier}")
             if carrier == "mhtml":
                 run.count("mhtml_root_" + meta[cid]["params"].get("root", "text/html"))
@@ -340,6 +363,9 @@ def evaluate(run, bodies, cases, meta, results) -> None:
                     run.count("mhtml_raw_search_path_taken")
                     if role == "main" and body.features & {"c:raw:document-write", "c:normal:full-document", "c:comment:page-skeleton"}:
                         run.count("mhtml_raw_search_with_document_inside_removed_content")
+            if carrier == "msg" and role == "main" and body.wrapper == "fragment" and any(f.startswith("long:") for f in body.features) \
+                    and body.features & {"pos:doc-start", "pos:head"} and "full" in obs:
+                run.count("msg_long_preamble_first_in_fragment")
             if carrier == "msg" and role != "ref":
                 run.count("msg_looks_like_html_" + str(bool(obs.get("looks_like_html"))).lower())
             if carrier == "epub" and role == "main":
@@ -361,30 +387,30 @@ def evaluate(run, bodies, cases, meta, results) -> None:
         def rep(role):
             cid = roles[role]
             return {"carrier": carrier, "role": role, "doc": meta[cid]["doc"], "params": meta[cid]["params"], "tokens": meta[cid]["tokens"],
-                    "risky": body.risky, "features": sorted(body.features),
+                    "risky": grisky, "features": sorted(body.features),
                     "twin_doc": meta[roles["twin"]]["doc"] if "twin" in roles else None,
                     "ref_doc": meta[roles["ref"]]["doc"] if "ref" in roles else None, "recipe": body.recipe()}
 
         for s_, _ in (verdicts.get("ref") or []):      # the reference holds no removable markup at all: a clean document
             run.violation(f"C17:{carrier}:clean:{s_}", _what(body, carrier, "ref", meta[roles["ref"]]["doc"], verdicts["ref"], results[roles["ref"]]), rep("ref"))
 
-        if body.risky is None:
+        if grisky is None:
             for s, _ in (main_syms or []):
                 run.violation(f"C17:{carrier}:clean:{s}", _what(body, carrier, "main", meta[roles["main"]]["doc"], main_syms, results[roles["main"]]), rep("main"))
             continue
-        run.count(f"risky_pairs_{body.risky}_{carrier}")
+        run.count(f"risky_pairs_{grisky}_{carrier}")
         if twin_syms:
             for s, _ in twin_syms:      # the twin is a clean document
                 run.violation(f"C17:{carrier}:clean:{s}", _what(body, carrier, "twin", meta[roles["twin"]]["doc"], twin_syms, results[roles["twin"]]), rep("twin"))
         elif twin_syms is not None:
             run.count("control_twins_clean")
         if main_syms:
-            feature = body.risky if twin_syms == [] else body.risky + "+twin-not-clean"
+            feature = grisky if twin_syms == [] else grisky + "+twin-not-clean"
             for s, _ in main_syms:
                 run.violation(f"C17:{carrier}:{feature}:{s}", _what(body, carrier, "main", meta[roles["main"]]["doc"], main_syms, results[roles["main"]]), rep("main"))
-            run.count(f"risky_cases_with_symptom_{body.risky}")
+            run.count(f"risky_cases_with_symptom_{grisky}")
         elif main_syms is not None:
-            run.count(f"risky_cases_without_symptom_{body.risky}")
+            run.count(f"risky_cases_without_symptom_{grisky}")
     run.extras["features"] = dict(sorted(feat_hist.items()))
     run.extras["constructs_per_carrier"] = dict(sorted(el_carrier.items()))
 
@@ -408,6 +434,8 @@ def main(run) -> None:
     bodies = list(itertools.chain(
         G.systematic_clean(rng),
         G.systematic_epub_only(rng),
+        G.systematic_preambles(rng),
+        G.quiet_fragments(rng, run.n(30, 400)),
         G.systematic_risky(rng),
         G.random_clean(rng, run.n(1000, 30000)),
         G.random_risky(rng, run.n(250, 8000)),
@@ -442,11 +470,13 @@ def main(run) -> None:
         run.require(f"tokens_judged_{cls}", c.get(f"tokens_judged_{cls}", 0), run.n(3000, 40000))
     run.require("mhtml_raw_search_path_taken", c.get("mhtml_raw_search_path_taken", 0), run.n(300, 5000))
     run.require("mhtml_raw_search_with_document_inside_removed_content", c.get("mhtml_raw_search_with_document_inside_removed_content", 0), run.n(15, 300))
+    run.require(f"risky_pairs_{QUIET}_msg", c.get(f"risky_pairs_{QUIET}_msg", 0), run.n(20, 300))
+    run.require("msg_long_preamble_first_in_fragment", c.get("msg_long_preamble_first_in_fragment", 0), run.n(12, 100))
     run.require("msg_bodies_that_look_like_html", c.get("msg_looks_like_html_true", 0), run.n(600, 8000))
     need = [f"pos:{p}" for p in G.POSITIONS] + [f"attr:{a}" for a in G.ATTR_KINDS] + [f"case:{k}" for k in G.CASE_KINDS] + \
            [f"close:{k}" for k in G.CLOSE_KINDS] + [f"c:raw:{k}" for k in G.RAW_KINDS] + [f"c:normal:{k}" for k in G.NORMAL_KINDS] + \
            [f"c:comment:{k}" for k in G.COMMENT_KINDS] + [f"c:embed:{k}" for k in G.EMBED_KINDS] + ["c:normal:selfclosed-removable"] + \
-           [f"tail:{k}" for k in G.TAIL_KINDS] + [f"trunc:{k}" for k in G.TRUNC_KINDS] + list(G.FILLER_FEATURES) + \
+           [f"tail:{k}" for k in G.TAIL_KINDS] + [f"trunc:{k}" for k in G.TRUNC_KINDS] + list(G.FILLER_FEATURES) + [f"long:{n}" for n in G.LONG_SIZES] + \
            ["c:normal:orphan-endtag", "c:raw:orphan-endtag"]
     missing = [f for f in need if run.extras["features"].get(f, 0) < 4]
     run.require("grammar_features_covered", len(need) - len(missing), len(need))
